@@ -1,2 +1,77 @@
-(* props/C17.v — placeholder until the theorems of this property are added. *)
-From Prophy Require Import Bytes Schema Layout Wire PcModel.
+(* props/C17.v — front-ends agree: isar (+patch) and prophy text give the same wire layout.
+   Every front-end hands the model pass a list of member records (model.StructMember: name, type, bound, size,
+   greedy, optional) per struct; layout, kinds and generated codecs are functions of those records (C04, C08,
+   C01, C03). model/PcPatch.v follows prophyc/patch.py on such records. Proved: each re-shaping rule (dynamic,
+   greedy, static, limited) turns the addressed member into exactly the record the prophy text front-end builds
+   for the corresponding declaration (T x<@n>, T x<...>, T x[N], T x<N> counted by n), whatever the member was
+   before (plain, fixed array, optional), and leaves every other member and the member count alone; type / insert
+   / remove do what they say; a rule whose member or counter is absent, and limited on a field without a size,
+   fail the compilation; a rule naming an absent message changes nothing. So a patched isar struct and the
+   prophy-text struct with the same declarations reach the model pass as equal record lists. Not modelled: the
+   XML reading of isar.py (the dimension attributes) and the rename / struct rules; that both routes produce equal
+   layouts and bytes end to end is decided by checks/C17.py (differential, Coq spec as oracle). One hypothesis the
+   proofs forced: dynamic / static / limited do not clear a greedy flag set by an earlier greedy rule
+   (m_greedy m = false is required for the text-form equality; see C17_greedy_then_dynamic). *)
+From Coq Require Import ZArith List Bool.
+From Prophy Require Import PcPatch PcPatchFacts.
+Import ListNotations.
+
+Theorem C17_dynamic_is_text_form : forall ms x s i m,
+  find_member ms x O = Some (i, m) -> sizer_before ms i s = true -> m_greedy m = false ->
+  apply_action ms (ADynamic x s) = POk (set_nth ms i (text_member (DBound (m_type m) x s))).
+Proof. exact patch_dynamic. Qed.
+Print Assumptions C17_dynamic_is_text_form.
+
+Theorem C17_greedy_is_text_form : forall ms x i m,
+  find_member ms x O = Some (i, m) ->
+  apply_action ms (AGreedy x) = POk (set_nth ms i (text_member (DGreedy (m_type m) x))).
+Proof. exact patch_greedy. Qed.
+Print Assumptions C17_greedy_is_text_form.
+
+Theorem C17_static_is_text_form : forall ms x n i m,
+  find_member ms x O = Some (i, m) -> m_greedy m = false ->
+  apply_action ms (AStatic x n) = POk (set_nth ms i (text_member (DFixed (m_type m) x n))).
+Proof. exact patch_static. Qed.
+Print Assumptions C17_static_is_text_form.
+
+Theorem C17_limited_is_text_form : forall ms x s n i m,
+  find_member ms x O = Some (i, m) -> sizer_before ms i s = true -> m_size m = Some n -> m_greedy m = false ->
+  apply_action ms (ALimited x s) = POk (set_nth ms i (text_member (DLimitedBy (m_type m) x n s))).
+Proof. exact patch_limited. Qed.
+Print Assumptions C17_limited_is_text_form.
+
+Theorem C17_unappliable_rule_fails : forall ms x,
+  find_member ms x O = None ->
+  forall s n t, apply_action ms (ADynamic x s) = PErr /\ apply_action ms (AGreedy x) = PErr /\
+                apply_action ms (AStatic x n) = PErr /\ apply_action ms (ALimited x s) = PErr /\
+                apply_action ms (AType x t) = PErr /\ apply_action ms (ARemove x) = PErr.
+Proof. exact patch_member_absent. Qed.
+Print Assumptions C17_unappliable_rule_fails.
+
+Theorem C17_counter_must_precede : forall ms x s i m,
+  find_member ms x O = Some (i, m) -> sizer_before ms i s = false ->
+  apply_action ms (ADynamic x s) = PErr /\ apply_action ms (ALimited x s) = PErr.
+Proof. exact patch_sizer_absent. Qed.
+Print Assumptions C17_counter_must_precede.
+
+Theorem C17_absent_message_ignored : forall node ms patches,
+  Forall (fun p => fst p <> node) patches -> patch_node node ms patches = POk ms.
+Proof. exact patch_absent_message. Qed.
+Print Assumptions C17_absent_message_ignored.
+
+(* non-vacuity: struct { u32 n; T a[4]; T* b; } with "dynamic a n", "limited ..." etc. *)
+Example C17_example :
+  let ms := [plain_mem 1 100; text_member (DFixed 7 2 4); text_member (DOpt 7 3)] in
+  apply_action ms (ADynamic 2 1) = POk [plain_mem 1 100; text_member (DBound 7 2 1); text_member (DOpt 7 3)] /\
+  apply_action ms (ALimited 2 1) = POk [plain_mem 1 100; text_member (DLimitedBy 7 2 4 1); text_member (DOpt 7 3)] /\
+  apply_action ms (AGreedy 3) = POk [plain_mem 1 100; text_member (DFixed 7 2 4); text_member (DGreedy 7 3)] /\
+  apply_action ms (AStatic 3 2) = POk [plain_mem 1 100; text_member (DFixed 7 2 4); text_member (DFixed 7 3 2)] /\
+  apply_action ms (ADynamic 2 3) = PErr /\ apply_action ms (ALimited 3 1) = PErr /\ apply_action ms (ARemove 9) = PErr.
+Proof. vm_compute. repeat split; reflexivity. Qed.
+
+(* what the hypothesis m_greedy m = false excludes: "greedy a" followed by "dynamic a n" leaves a record that is
+   both greedy and bound — no declaration of the text language denotes it *)
+Example C17_greedy_then_dynamic :
+  apply_actions [plain_mem 1 100; plain_mem 2 7] [AGreedy 2; ADynamic 2 1]
+  = POk [plain_mem 1 100; {| m_name := 2; m_type := 7; m_bound := Some 1; m_size := None; m_greedy := true; m_opt := false |}].
+Proof. vm_compute. reflexivity. Qed.
